@@ -552,6 +552,7 @@ def lcm_all(hs):
     from .rp2api import lcm_q  # pylint: disable=import-outside-toplevel
 
     q = 1
+    q2 = 1
     for h in hs:
         k = lcm_q(h)
         q = q * k // math.gcd(q, k)
@@ -564,5 +565,6 @@ def lcm_all(hs):
             else:
                 held -= x["fee"]
             if held > 0:
-                q = q * held // math.gcd(q, held)
-    return q
+                q2 = q2 * held // math.gcd(q2, held)
+    # (the cost of unsold lot parts has lot amounts as denominators and is then divided by the holding: the product covers both)
+    return q * q2
